@@ -8,14 +8,14 @@ ROOT = os.path.dirname(os.path.dirname(os.path.abspath(__file__)))
 # id -> (engine, technique, level text, level note, design section)
 CHECKS = {
  "C01": ("zcheck", "stateless model checking of Connection::receive_* (DFS by re-execution over frame sequences x every partition of the byte stream into reads, deviation-bounded beyond 11/16 bytes)",
-         "Every execution is a complete receive history of the real ReadConnection over a scripted transport; all frame sequences of the alphabet up to 3 frames, all partitions of short streams, all cut sets up to the deviation budget for long ones, every growth-boundary frame size, bursts. Compared against split-at-NUL + serde_json::from_slice after every receive.",
-         "Trusted: serde_json::from_slice as the meaning of a frame; the scripted ReadHalf models a stream socket (returns 1..=min(available, buffer) bytes). Bounded: <=3 frames from a 14/15-symbol alphabet, growth sizes up to 774 bytes, bursts up to 40 frames.", "4 C01"),
+         "Every execution is a complete receive history of the real ReadConnection over a scripted transport; all frame sequences of the alphabet up to 3 frames, all partitions of short streams, all cut sets up to the deviation budget for long ones, every growth-boundary frame size, bursts, 2..3 frames of 100..300 bytes (the buffer grows while earlier frames are still in it); frame content includes non-ASCII characters, control / 0x7f / non-UTF-8 bytes in malformed frames. Compared against split-at-NUL + serde_json::from_slice after every receive.",
+         "Trusted: serde_json::from_slice as the meaning of a frame; the scripted ReadHalf models a stream socket (returns 1..=min(available, buffer) bytes). Bounded: <=3 frames from an 18/15-symbol alphabet, growth sizes up to 774 bytes, bursts up to 40 frames, medium sequences of <=3 frames from 7 sizes.", "4 C01"),
  "C07": ("zcheck", "stateless model checking of receive with cancellation (every read poll may be pending, every pending may be followed by dropping the receive future)",
-         "C01's space with two more choices at every transport read: ready/pending and re-poll/cancel. Every subset of suspension points is cancelled for short streams; deviation-bounded for growth-size frames.",
+         "C01's space with two more choices at every transport read: ready/pending and re-poll/cancel. Every subset of suspension points is cancelled for short streams; deviation-bounded for growth-size frames and for 2..3-frame sequences of 100..300-byte frames.",
          "Trusted: the scripted ReadHalf is cancel-safe by construction, as the ReadHalf contract demands. Bounded: <=2 frames, streams <= 7/9 bytes fully partitioned, growth sizes with <=1/2 cuts near a 256-byte step.", "4 C07"),
  "C02": ("zcheck", "stateless model checking of the WriteConnection (complete sweep of all message-length pairs 1..700^2 x 4 operation forms; DFS over all operation histories up to 4/5 operations with lengths placed around the current free space)",
-         "Every execution is a complete operation history on a fresh Connection whose transport logs each write with its boundaries; the oracle is a Vec<u8> of pending bytes. All length pairs meet every free-space value 0..=600; histories include unserializable messages at every position.",
-         "Trusted: serde_json::to_vec as the JSON document of a message; the scripted WriteHalf accepts each write whole. Bounded: histories of <=4 (quick) / <=5 (thorough) operations, lengths from a boundary alphabet relative to free space, message sizes up to ~1.3 KB.", "4 C02"),
+         "Every execution is a complete operation history on a fresh Connection whose transport logs each write with its boundaries; the oracle is a Vec<u8> of pending bytes. All length pairs meet every free-space value 0..=600; histories include unserializable messages and (buffer limit lowered to 4096 bytes by hook) messages sized against the limit - exact fit, no room for the terminator, +1, +300 bytes - at every position: a refused message contributes no bytes at any later flush and leaves the connection usable.",
+         "Trusted: serde_json::to_vec as the JSON document of a message; the scripted WriteHalf accepts each write whole. Bounded: histories of <=4 (quick) / <=5 (thorough) operations, lengths from a boundary alphabet relative to free space, message sizes up to ~1.3 KB plus the limit-sized ones. Built with hook zlink_verif_small_buf (only the limit constant differs).", "4 C02"),
  "C06": ("zcheck", "stateless model checking of Chain/ReplyStream (DFS by re-execution over all chains x reply scripts x trailing frame x arrival chunkings, deviation-bounded mid-frame cuts and spurious Pending)",
          "Every execution builds a real chain on a real Connection, sends it, and drives the returned stream poll by poll while the reply bytes arrive in driver-chosen chunks; the oracle is the owed-replies model written from the statement.",
          "Trusted: the reply scripts conform to the protocol. Bounded: chains of <=4 (quick) / <=6 (thorough) calls, <=2 continuing replies per `more` call, every subset of inter-frame cuts for <=3/4 calls, <=1/2 deviations otherwise.", "4 C06"),
@@ -33,7 +33,7 @@ CHECKS = {
          "Faulty connections are only prefix-checked (or unconstrained after an undecodable frame). Built with the buffer limit lowered to 4096 bytes (hook zlink_verif_small_buf) so that an oversized frame is an affordable fault. Bounded: <=3/4 connections, <=4/5 calls, <=8/9 events, <=2 faults.", "4 C09"),
  "C10": ("zcheck", "stateless model checking of Server::run with streaming calls: stream items and stream ends are driver events interleaved with client traffic",
          "Scripts mixing Watch calls (0..2 items, ending or left open) with plain/error calls pipelined before and behind them on <=2/3 connections, all interleavings of item production, stream end, byte arrival and other clients' calls; a client becoming unwritable at any point. Items in order with the service's continues flag, calls behind the stream answered after it ends, other clients unaffected, only the unwritable client's subscription dropped.",
-         "Bounded: <=2/3 connections, <=4/5 calls, <=8 events, streams of <=2 items, <=1/2 deviations (cuts, short reads, delayed polls).", "4 C10"),
+         "Bounded: <=2/3 connections, <=4/5 calls, <=8 events, streams of <=2 items, <=1/2 deviations (cuts, short reads, a transport write pending once, delayed polls).", "4 C10"),
  "C18": ("zcheck", "stateless model checking of Server::run's scheduling: DFS over connection roles x the moment (every hand-over of a call to the service is an injection point) of every arrival, closure, stream end and late connect; oracle on the global service order",
          "Every execution floods a real Server from a subset of connections while the others' single calls, closures, stream transitions and late connects are injected at chosen hand-overs; clause 1 (no connection served twice while another, eligible one has had a complete call waiting and the set is unchanged) and clause 2 (waiting bounded by N*(T+1)) are evaluated on the recorded service order with per-hand-over snapshots of the connection set.",
          "Trusted: hand-overs are the only moments at which the single-task server can observe new input between two services. Bounded: <=3/4/5 connections, floods of 4..8 calls, 5..14 moments.", "4 C18"),
@@ -54,7 +54,7 @@ CHECKS = {
          "Bounded as C13. Comments are plain single-line texts. Descriptions produced by the derive macros are round-tripped in C16's corpus.", "4 C14"),
  "C19": ("sockets", "stateless model checking of real socketpair traffic: DFS over message sequences x driver schedules (which end is polled next, when a pending send future is dropped) with a deviation budget, every schedule one real single-threaded execution per runtime (tokio, smol)",
          "Real AF_UNIX socketpairs with the smallest kernel buffers, real zlink_tokio / zlink_smol connections, futures polled by hand; received sequence must be the sent one (whole frames, in order, each at most once, every completed send delivered) for one- and two-directional traffic, with sends abandoned at every scheduled point; listeners bound vs. from an inherited descriptor with 1..8 clients, identifiers distinct.",
-         "The explorer owns the schedule, not how many bytes the kernel accepts per write (observed, assumed to be a function of the operation sequence). Identifier distinctness is checked sequentially only (a fetch_add turned into load+store would not be caught). Bounded: <=3 messages from {1 B, 300 B, 6 KB, 70 KB} (+1 MiB thorough), 8..16 scheduled steps, <=3 deviations.", "4 C19"),
+         "The explorer owns the schedule, not how many bytes the kernel accepts per write (observed, assumed to be a function of the operation sequence). Identifier distinctness is checked sequentially only (a fetch_add turned into load+store would not be caught). Bounded: <=3 messages from {1 B, 300 B, 6 KB, 70 KB} (+1 MiB thorough), 6..16 scheduled steps, <=3 deviations, incl. a phase where several sends in a row are abandoned (a retry dropped before it made progress).", "4 C19"),
  "C20": ("sockets", "exhaustive enumeration (DFS) of operation sequences over {set, subscribe, poll(i), clone, drop} against zlink_tokio::notified and zlink_smol::notified, hand-polled on one thread, logs compared with the latest-value rule and with each other",
          "Every sequence of <=8/10 operations with <=3 subscribers and <=3 state handles; per subscriber: items are values set after it subscribed, in order, each once, marked continuing; a drained subscriber has seen the latest value; a pending subscriber is woken by the next set; no end of stream while a state handle exists; tokio and smol observation logs equal; the 4 one-shot scenarios per crate.",
          "Trusted: the broadcast/oneshot channel libraries are linearizable, so cross-thread use reduces to these sequences.", "4 C20"),
